@@ -116,10 +116,15 @@ type Scenario struct {
 	RefreshLoop bool // run the real topology refresh goroutine; synchronised with a barrier at every quiescent point
 	InputEnum   bool // the scenario itself is one point of an input enumeration (counts as a distinct non-trivial case)
 	ReuseFds    bool
-	NoVariant   bool // never run this scenario as a configuration variant (multi-megabyte inputs: debug lines walk every byte)
-	DebugLog    bool // log level "debug": Debug lines are formatted and Debug closures evaluated
-	SlowlogMs   int  // > 0: slow-log threshold in milliseconds (RedisSlowlogSlowerThan)
-	AfterBoot   func(w *World)
+	// the proxy's own redis client (INFO probe of new nodes, PING health probe) talks to the scripted nodes over in-memory
+	// connections: Info says what a node's INFO reports (nil: version 6.0.0, not loading, link up; an error = dial refused);
+	// ProbePiece > 0 delivers every reply of those connections in pieces of that many bytes
+	Info       func(addr string) (*redis.Info, error)
+	ProbePiece int
+	NoVariant  bool // never run this scenario as a configuration variant (multi-megabyte inputs: debug lines walk every byte)
+	DebugLog   bool // log level "debug": Debug lines are formatted and Debug closures evaluated
+	SlowlogMs  int  // > 0: slow-log threshold in milliseconds (RedisSlowlogSlowerThan)
+	AfterBoot  func(w *World)
 	// cross-execution oracle: Observe is recorded per execution, Final judges the multiset of a scenario
 	Observe func(w *World) string
 	Final   func(obs map[string]int) []Violation
@@ -368,6 +373,8 @@ func ExecuteWith(sc *Scenario, choose vsys.Chooser, boot func(w *World)) *World 
 		}
 		return nil
 	}
+	vsys.RedisDialHook = w.redisDial
+	vsys.RealDetect = true
 	vsys.IntnGate = nil
 	if sc.IntnGate != nil {
 		vsys.IntnGate = func() bool { return sc.IntnGate(w) }
@@ -1280,4 +1287,103 @@ func (w *World) DataCmds(addr string) []CmdRec {
 		out = append(out, r)
 	}
 	return out
+}
+
+// ---------------------------------------------------------------------------------------------
+// the scripted node as seen by the proxy's own redis client (core/pkg/redis): AUTH, INFO, PING
+
+type probePeer struct {
+	w      *World
+	addr   string
+	in     []byte
+	out    []byte
+	authed bool
+}
+
+func (w *World) redisDial(addr string) (vsys.RedisPeer, error) {
+	if w.Down[addr] {
+		return nil, fmt.Errorf("dial tcp %s: connect: connection refused", addr)
+	}
+	if w.Sc.Info != nil {
+		if _, err := w.Sc.Info("dial:" + addr); err != nil {
+			return nil, err
+		}
+	}
+	return &probePeer{w: w, addr: addr}, nil
+}
+
+func (p *probePeer) Close() {}
+
+func (p *probePeer) Write(b []byte) {
+	p.in = append(p.in, b...)
+	for {
+		args, n, st := ParseRequestStrict(p.in)
+		if st != ParseOK {
+			return
+		}
+		p.in = p.in[n:]
+		p.out = append(p.out, p.answer(args)...)
+	}
+}
+
+func (p *probePeer) Read(b []byte) (int, error) {
+	if len(p.out) == 0 {
+		return 0, nil
+	}
+	n := len(p.out)
+	if n > len(b) {
+		n = len(b)
+	}
+	if k := p.w.Sc.ProbePiece; k > 0 && n > k {
+		n = k
+	}
+	copy(b, p.out[:n])
+	p.out = p.out[n:]
+	return n, nil
+}
+
+func (p *probePeer) answer(args [][]byte) []byte {
+	pw := p.w.nodePassword()
+	switch Lower(args[0]) {
+	case "auth":
+		if pw == "" {
+			return []byte(RErrAuthNoPw)
+		}
+		if len(args) == 2 && string(args[1]) == pw {
+			p.authed = true
+			return []byte(ROK)
+		}
+		return []byte("-ERR invalid password\r\n")
+	case "ping":
+		if pw != "" && !p.authed {
+			return []byte("-NOAUTH Authentication required.\r\n")
+		}
+		return []byte(RPong)
+	case "info":
+		if pw != "" && !p.authed {
+			return []byte("-NOAUTH Authentication required.\r\n")
+		}
+		info := &redis.Info{Version: "6.0.0", MasterLinkStatus: "up"}
+		if p.w.Sc.Info != nil {
+			if i, err := p.w.Sc.Info(p.addr); err == nil && i != nil {
+				info = i
+			}
+		}
+		loading := "0"
+		if info.Loading {
+			loading = "1"
+		}
+		role := "master"
+		text := "# Server\r\nredis_version:" + info.Version + "\r\nredis_mode:cluster\r\nos:Linux\r\n\r\n# Persistence\r\nloading:" + loading + "\r\nrdb_changes_since_last_save:0\r\n\r\n# Replication\r\n"
+		if n := p.w.Sc.node(p.addr); n != nil && n.Master != "" {
+			role = "slave"
+		}
+		text += "role:" + role + "\r\n"
+		if info.MasterLinkStatus != "" {
+			text += "master_link_status:" + info.MasterLinkStatus + "\r\n"
+		}
+		text += "connected_slaves:0\r\n"
+		return Bulk(text)
+	}
+	return []byte("-ERR unknown command\r\n")
 }
